@@ -110,3 +110,37 @@ def _finditer_twin(ctx):
         lambda it: Py.list(lib.seq_of(it, it.call_method(mk(it)[0], "finditer_async", [data], {"filter_context": fc}))),
         lambda it: Py.list(lib.seq_of(it, it.call_method(mk(it)[0], "finditer", [data], {"filter_context": fc}))),
     )
+
+
+def _register_compound_forms(meth):
+    @contract(f"CompoundJSONPath.{meth}[text|file]=={meth}[parsed]", ("C11",), [CP + meth, "jsonpath._data:load_data"], replay=("compound_forms_replay", [meth], "compound_candidates"))
+    def _c(ctx, meth=meth):
+        """A compound query reads a file once and applies every operand to the same parsed value."""
+        from contracts.paths import _text_inputs
+
+        rest = ctx.seq("paths")
+        union, inter = ctx.str("union_token"), ctx.str("intersection_token")
+        _, text, parsed, fc, as_file = _text_inputs(ctx)
+        ctx.require(union != inter)
+
+        def operand_ok(e):
+            return z3.And(Py.is_tuple(e), z3.Length(Py.titems(e)) == 2, z3.Or(Py.titems(e)[0] == Py.str(union), Py.titems(e)[0] == Py.str(inter)), Py.is_obj(Py.titems(e)[1]))
+
+        def run(it, mkdoc):
+            it.elem_facts = [(rest, operand_ok)]
+            env = env_obj(it, union_token=Py.str(union), intersection_token=Py.str(inter))
+            first = _abstract_path(it, S.mk_str("<first operand>"))
+            c = it.alloc(pathm.CompoundJSONPath, {"env": env, "path": first, "paths": Py.tuple(rest)}, origin="QUERY")
+            v = it.call_method(c, meth, [mkdoc(it)], {"filter_context": fc})  # the query objects first: same references on both sides
+            return Py.list(lib.seq_of(it, v)) if "iter" in meth else v
+
+        def on_parsed(it):
+            it.assume(S.json_value(parsed))
+            return run(it, lambda it_: parsed)
+
+        ctx.equiv(f"{meth}[text]", lambda it: run(it, lambda it_: Py.str(text)), on_parsed)
+        ctx.equiv(f"{meth}[file]", lambda it: run(it, as_file), on_parsed)
+
+
+for _m in ("findall", "finditer", "findall_async", "finditer_async"):
+    _register_compound_forms(_m)
